@@ -39,14 +39,14 @@ TRUSTED = [
     "C09: round(x, 1) on an IEEE double is compared with the exact rational rounded half-even (tolerance 1e-9) and, within 1e-7 of a rounding tie, with +-0.05 of the exact value",
 ]
 ASSUMPTIONS = [
-    "interface names: non-empty, no NUL, no '\\n'/'\\r', first and last byte not removed by the strip the code applies (theorems C09_net*: WFName netCfg.nameWs); the full-strength statement for every name free of C-locale whitespace is C09_net_every_kernel_name_Full (proved for `.strip(' ')`, refuted for the bare `.strip()`: finding C09-net-name-strip); with the bare strip() the UTF-8 encodings of Unicode spaces at the ends of a name are stripped by the code but not by the byte-level model (inside the finding's region only)",
+    "interface names: non-empty, no NUL, no '\\n'/'\\r', first and last byte not removed by the strip the code applies (theorems C09_net*: WFName netCfg.nameWs); the full-strength statement for every name free of C-locale whitespace is C09_net_every_kernel_name_Full (proved for `.strip(' ')`, which is what the code uses since fix eb17d63 - C09_net_names_full -, refuted for the bare `.strip()` of the code as found: former finding C09-net-name-strip); with the bare strip() the UTF-8 encodings of Unicode spaces at the ends of a name are stripped by the code but not by the byte-level model (inside the former finding's region only)",
     "disk names (/proc/diskstats source): one non-empty token for str.split(): no ASCII whitespace incl. 0x1c-0x1f, no NUL, no UTF-8 encoded Unicode space (WFDisk.noUni: hasUniSpace name = false, stated in the theorems; a line that has one is 'unmodelled'); not '.' or '..'; distinct after the / -> ! mapping",
-    "/sys/block source (C09_sysfs*): kernel-shaped tree - `stat` is the only file of that name in a device directory, attribute directories contain no file called `stat` (a deeper `stat` file IS read by the code and by the model: raw family 'deepstat'), directory names distinct and not '.'/'..'; names need not be split() tokens; kernel names contain no '!' (the kernel's '/' -> '!' is not injective otherwise); with the bare basename(root) a device whose kernel name contains '/' is reported under its directory name (finding C09-sysfs-slash-name, fixes/C09-sysfs-slash-name.diff): C09_sysfs_agrees_with_procfs_Full is proved for the repaired configuration and for the generated one under the obligation cfg.nameReplace = some ('!','/'), refuted for the bare one",
+    "/sys/block source (C09_sysfs*): kernel-shaped tree - `stat` is the only file of that name in a device directory, attribute directories contain no file called `stat` (a deeper `stat` file IS read by the code and by the model: raw family 'deepstat'), directory names distinct and not '.'/'..'; names need not be split() tokens; kernel names contain no '!' (the kernel's '/' -> '!' is not injective otherwise); with the bare basename(root) of the code as found a device whose kernel name contains '/' was reported under its directory name (former finding C09-sysfs-slash-name, fixed in /repo by da4a5df): C09_sysfs_agrees_with_procfs_Full is proved for the generated configuration (C09_sysfs_agrees_with_procfs_full, through the obligation cfg_sysfs_unbang: cfg.nameReplace = some ('!','/')), refuted for the bare one",
     "device names are unique within one /proc file for the round-trip/sum theorems (the model itself keeps dict-overwrite semantics and the correspondence exercises duplicates)",
     "nowrap=False (nowrap=True post-processing is property C10)",
 ]
 MANIFEST = {
-    "level_text": "Machine-checked Lean 4 proofs over a model of _pslinux.net_io_counters, _pslinux.disk_io_counters (read_procfs, read_sysfs, the choice between them, NotImplementedError, is_storage_device filter), the two psutil front ends (nowrap=False; the zip/sum of the system-wide branch is a translator fact) and _psposix.disk_usage: round-trip theorems parse(render(table)) = documented fields for EVERY interface table (names with ':' '/' digits, unbounded counters) and for every /proc/diskstats table mixing the 14-, 18-, 20- (any >=18), 7- and 15-field layouts (sectors x 512), ValueError for every other field count, total = field-wise sum over whole disks only / over all interfaces (deleting every partition line leaves the total unchanged), None/{} conventions, the same for every kernel-shaped /sys/block tree when /proc/diskstats is absent (stat files of 11, 15, 17 or more fields, partitions below disks, attribute files/directories around; fewer than 10 fields: ValueError) and agreement of the two sources for the same kernel state (full strength for `.replace('!', '/')` in read_sysfs - translator fact sysfsNameReplace -, counterexample 'c/d' proved for the bare basename(root): finding C09-sysfs-slash-name), NotImplementedError when neither exists, int() acceptance on ASCII tokens, disk_usage formulas, 0 <= percent <= 100, |round1 q - q| <= 1/20. The full-strength name statement (every interface name free of C-locale whitespace is reported unchanged) is proved for the translator-generated configuration (C09_net_names_full: the source uses `.strip(' ')`) and refuted with a witness for the bare `.strip()` (former finding C09-net-name-strip). The model's column maps, branch table, sector size, skip condition, namedtuple fields and disk_usage assignments are regenerated from the source on every run and are parameters of the model the theorems are about; the model is tied to the code by a differential run of the real front-end functions over a fake procfs whose files are produced by the Lean renderers.",
+    "level_text": "Machine-checked Lean 4 proofs over a model of _pslinux.net_io_counters, _pslinux.disk_io_counters (read_procfs, read_sysfs, the choice between them, NotImplementedError, is_storage_device filter), the two psutil front ends (nowrap=False; the zip/sum of the system-wide branch is a translator fact) and _psposix.disk_usage: round-trip theorems parse(render(table)) = documented fields for EVERY interface table (names with ':' '/' digits, unbounded counters) and for every /proc/diskstats table mixing the 14-, 18-, 20- (any >=18), 7- and 15-field layouts (sectors x 512), ValueError for every other field count, total = field-wise sum over whole disks only / over all interfaces (deleting every partition line leaves the total unchanged), None/{} conventions, the same for every kernel-shaped /sys/block tree when /proc/diskstats is absent (stat files of 11, 15, 17 or more fields, partitions below disks, attribute files/directories around; fewer than 10 fields: ValueError) and agreement of the two sources for the same kernel state (full strength for the code as it is, C09_sysfs_agrees_with_procfs_full: read_sysfs uses `.replace('!', '/')` - translator fact sysfsNameReplace pinned by the obligation cfg_sysfs_unbang -; counterexample 'c/d' proved for the bare basename(root) of the code as found: former finding C09-sysfs-slash-name, fixed in /repo by da4a5df), NotImplementedError when neither exists, int() acceptance on ASCII tokens, disk_usage formulas, 0 <= percent <= 100, |round1 q - q| <= 1/20. The full-strength name statement (every interface name free of C-locale whitespace is reported unchanged) is proved for the translator-generated configuration (C09_net_names_full: the source uses `.strip(' ')`) and refuted with a witness for the bare `.strip()` (former finding C09-net-name-strip, fixed in /repo by eb17d63). The model's column maps, branch table, sector size, skip condition, namedtuple fields and disk_usage assignments are regenerated from the source on every run and are parameters of the model the theorems are about; the model is tied to the code by a differential run of the real front-end functions over a fake procfs whose files are produced by the Lean renderers.",
     "level_note": "Trusted: Lean kernel + {propext, Classical.choice, Quot.sound}; the translator; the correspondence harness; kernel line renderers; int()/split()/strip()/round()/os.walk of CPython modelled; negative int() results, non-ASCII digit tokens and UTF-8 encoded Unicode spaces are outside the model's domain (the model says so, such inputs are counted and not judged).",
     "technique": "Lean 4 round-trip proofs (render → parse) per kernel layout with translator-fed column maps + sum laws by induction + differential correspondence over a fake procfs and a redirected /sys/block",
     "design_ref": "DESIGN.md §5 C09",
